@@ -1,0 +1,6 @@
+//go:build !verif
+
+package keeper
+
+// verifInstrument is a no-op in regular builds (see verif_on.go, build tag "verif").
+func verifInstrument(*Keeper) {}
